@@ -22,6 +22,7 @@ def run(c):
     r3(c)
     r4(c)
     r5(c)
+    r6(c)
 
 
 def r1(c, A):
@@ -274,3 +275,42 @@ def r5(c):
         it = loops[0].iter
         ok = any(isinstance(n, ast.Name) and n.id == "matches" for n in ast.walk(it))
         c.check("C06.R5", ok, repo.loc(m, loops[0]), "_select_match/loop-source", "accumulation does not iterate all matches", key_text="loop-src")
+
+
+def r6(c):
+    repo = c.repo
+    c.rule("C06.R6", "match_row_to_acl: every return of a match hands back the (match, children rules) pair computed by _select_match(matches, rules) over all matches found by "
+                     "_find_acl_matches — no shortcut builds its own children rules (they would lack the inherited %global rules and the merged local rules); "
+                     "_find_acl_matches collects every direct match before any reverse match (outer loop over ['direct_regexp', 'reverse_regexp'], rules inside): the stable sort "
+                     "by (prio, specificity) leaves ties in collection order and _select_match treats the first entry as the governing match")
+    m = repo.module(PATCHING)
+    fn = repo.func(PATCHING, "match_row_to_acl")
+    c.count("functions", 2)
+    pv = Provenance(fn)
+    rets = [n for n in walk_no_nested(fn) if isinstance(n, ast.Return) and n.value is not None]
+    if not rets:
+        raise AnchorError("match_row_to_acl: no return")
+    fam = [x for x in calls_in(fn) if call_name(x) == "_find_acl_matches"]
+    for r in rets:
+        v = pv.resolve_alias(r.value)
+        if isinstance(v, ast.Tuple) and all(isinstance(e, ast.Constant) and e.value is None for e in v.elts):
+            continue
+        ok = isinstance(v, ast.Call) and call_name(v) == "_select_match" and len(v.args) >= 2 and norm(v.args[1]) == fn.args.args[1].arg \
+            and bool(fam) and any(x is fam[0] for x in pv.origin_calls(v.args[0], through_calls=False))
+        c.check("C06.R6", ok, repo.loc(m, r), "match_row_to_acl/return-through-select", f"`return {norm(r.value)[:60]}` does not come from _select_match(<all matches>, rules): the children rules of "
+                "this path are assembled by hand, without the inherited rules['global'] / the union of the local rules of all equal matches", key_text="return-select")
+    fa = repo.func(PATCHING, "_find_acl_matches")
+    gm = GuardMap(fa)
+    apps = [x for x in calls_in(fa) if isinstance(x.func, ast.Attribute) and x.func.attr == "append"]
+    if len(apps) != 1:
+        raise AnchorError("_find_acl_matches: collection of the candidates not found")
+    loops = [l for l in gm.in_loop(apps[0]) if isinstance(l, ast.For)]
+    kinds = [i for i, l in enumerate(loops) if isinstance(l.iter, (ast.List, ast.Tuple)) and [getattr(e, "value", None) for e in l.iter.elts] == ["direct_regexp", "reverse_regexp"]]
+    ruleloops = [i for i, l in enumerate(loops) if any(isinstance(x, ast.Call) and call_name(x) == "_rules_local_global" for x in ast.walk(l.iter))]
+    # a sort key that itself separates direct from reverse matches makes the collection order irrelevant
+    sorts = [x for x in calls_in(fa) if isinstance(x.func, ast.Attribute) and x.func.attr == "sort" or call_name(x) == "sorted"]
+    if not kinds or not ruleloops:
+        raise AnchorError("_find_acl_matches: loops over the regexp kinds / the rules not found")
+    c.check("C06.R6", kinds[0] < ruleloops[0], repo.loc(m, loops[0]), "_find_acl_matches/direct-before-reverse", "candidates are collected rule by rule (direct and reverse match of one rule "
+            "together) instead of all direct matches first: with equal (prio, specificity) the reverse match of an earlier rule now precedes the direct match of a later one and "
+            "governs the row — its block is kept without the children rules of the direct match", key_text="collection-order")
